@@ -170,6 +170,11 @@ def run(ctx):
     cd.evaluations += 2
     if not it:
         res.add(Finding('C19', 'C19.d', 'R-PROV', pc.file, pc.qualname, pc.node.lineno, 'explicit ids', 'explicit recording ids are not handed to the equalizer as given'))
+    from . import c10
+    cx = res.clause('C19.e', 'R-SIBLING', 'lookup-driven selection is category-exact on the listing cassettes (shared with C10.a)', floor=2)
+    excm = ctx.excm(['playback.tape_cassette'])
+    c10.category_exactness_loops(ctx, res, cx, 'C19', 'C19.e', c10.ListingPolicy(repo, excm), excm,
+                                 (repo.cls('InMemoryTapeCassette'), repo.cls('FileBasedTapeCassette')))
     return res
 
 
